@@ -15,7 +15,7 @@
    a byte that fuses with it; Proofs/PrinterQuote.v: [quote_safe s]; PrinterRegex.v: [regex_ok s]. *)
 From Verif Require Import Lib.Base Lib.Dyadic Gen.Prec Model.ExprAst Model.ExprParser Model.Printer
   Proofs.ExprParserMono Proofs.ExprParserRel Proofs.PrecSpec Proofs.ExprParserPrinted
-  Proofs.PrinterGroup Proofs.PrinterFits Proofs.PrinterRegex Proofs.PrinterLex Proofs.PrinterQuote Proofs.PrinterStmt.
+  Proofs.PrinterGroup Proofs.PrinterFits Proofs.PrinterFitsb Proofs.PrinterRegex Proofs.PrinterLex Proofs.PrinterQuote Proofs.PrinterStmt.
 
 (* ---------------- token level: all trees ---------------- *)
 
@@ -33,6 +33,12 @@ Print Assumptions C20_grouping_only.
 Theorem C20_printer_fits : forall e pc k, fits pc k e -> fits pc k (gp e).
 Proof. exact fits_gp. Qed.
 Print Assumptions C20_printer_fits.
+
+(* the hypothesis [fits] is decided by [fitsb]; the harness evaluates fitsb on every expression of
+   every tree the real parser builds (image of the parser = trees that fit, on the fragment C04 covers) *)
+Theorem C20_fits_decided : forall e pc k, fitsb pc k e = true -> fits pc k e.
+Proof. exact fitsb_sound. Qed.
+Print Assumptions C20_fits_decided.
 
 (* MAIN (tokens): for every tree the parser can have built (fits), at any level k of either tower,
    the tokens of the printed text are read back as exactly gp e, which is e up to grouping nodes *)
